@@ -368,6 +368,10 @@ func drawWireCase(t *rapid.T, o *gen.WireOpts) wireCase {
 	}
 	c.GoType = c.Target.GoString()
 	n := gen.UniformRange(t, "ndatums", 0, 6)
+	if o.ManyDatums && gen.Uniform(t, "manyDatums", 25) == 0 {
+		// more records than any small ring or batch a reader might keep (64, 128)
+		n = []int{65, 66, 67, 100, 129, 130, 200}[gen.Uniform(t, "manyN", 7)]
+	}
 	for i := 0; i < n; i++ {
 		c.Datums = append(c.Datums, gen.WireDatum(t, c.Schema, c.Target, true))
 	}
@@ -393,6 +397,6 @@ func TestC03(t *testing.T) {
 		if thorough() {
 			d = 5
 		}
-		return drawWireCase(t, &gen.WireOpts{MaxDepth: d, MultiUnion: true, Drop: 8, Logical: true})
+		return drawWireCase(t, &gen.WireOpts{MaxDepth: d, MultiUnion: true, Drop: 8, Logical: true, ManyDatums: true})
 	}, runC03)
 }
